@@ -363,6 +363,25 @@ def has_mono(t):
                                   and x[0] in ('bind', 'par', 'dur', 'delta', 'chain', 'monop', 'seq', 'pn'))
 
 
+def chain_over_mono(t):
+    """Pchain(Pbind, Pmono) somewhere in the term (own oracle rule; the model does not cover it)."""
+    if not isinstance(t, list) or not t or not isinstance(t[0], str):
+        return False
+    if t[0] == 'chain' and has_mono(t[2]):
+        return True
+    return t[0] in ('par', 'seq', 'pn', 'delta', 'dur') and any(chain_over_mono(x) for x in t[1:])
+
+
+def monos_of(t):
+    if not isinstance(t, list) or not t or not isinstance(t[0], str):
+        return []
+    if t[0] == 'monop':
+        return [t]
+    if t[0] in ('par', 'seq', 'pn', 'delta', 'dur', 'chain'):
+        return [m for x in t[1:] for m in monos_of(x)]
+    return []
+
+
 def o_timeline(t, base):
     """Documented meaning of an event pattern: list of (start, event, rests[, mark]) + total length.
     mark = ('on' | 'set' | 'off', key, instrument) for the elements of a Pmono: its synth starts with its
@@ -649,6 +668,19 @@ def oracle_notes(case):
                 rests.add(k)
         notes.append(o_note(e, rests, t0, lat, defs))
         return notes, t0
+    if prog[0] == 'redef':
+        # the instrument is defined again (same name, other controls) between two plays: the
+        # parameters of each /s_new are the controls of the description current at ITS play
+        e, rests = {}, set()
+        for k, v in prog[2]:
+            x, r = o_val(v)
+            e[k] = x
+            if r:
+                rests.add(k)
+        notes.append(o_note(e, rests, t0, lat, defs))
+        defs2 = [prog[4] if d['name'] == prog[4]['name'] else d for d in defs]
+        notes.append(o_note(e, rests, t0 + F(prog[3]), lat, defs2))
+        return notes, t0 + F(prog[3])
     if prog[0] == 'replay':
         # every play of the object (or of a copy) is a note of its own, at its own time
         e, rests = {}, set()
@@ -1004,7 +1036,23 @@ class Check(common.Check):
             while p[0] == 'bind' and rng.random() < 0.7:
                 p = g.pat(defs, 2, False)
             prog = ['restart', t0, p, f'{rng.randint(0, 96) * 2 + 1}/64', g.dy(0, 2, (1, 2, 4))]
+        elif x < 0.68:
+            # the instrument is re-defined (same name, other controls) between two plays of equal events
+            d0 = rng.choice(defs)
+            ev = [kv for kv in g.event(defs) if kv[0] != 'instrument'] + [['instrument', ['s', d0['name']]]]
+            ctl = rng.sample(CTL_POOL, rng.randint(0, 7))
+            if rng.random() < 0.6 and 'gate' not in ctl:
+                ctl.insert(rng.randrange(len(ctl) + 1), 'gate')
+            d1 = {'name': d0['name'], 'controls': ctl}
+            prog = ['redef', t0, ev, g.dy(0, 2, (1, 2, 4)), d1]
         elif x < 0.72:
+            # Pchain(Pbind(constants), Pmono), alone or as Ppar voices: still one synth per Pmono
+            def cm():
+                m = g.mono(defs)
+                b = [[k, ['cyc', g.key_val(k)]] for k in rng.sample(['amp', 'pan', 'foo', 'ctranspose'], 2)]
+                return ['chain', b, ['monop', m[1], m[3]]]
+            prog = ['pat', t0, cm() if rng.random() < 0.6 else ['par', cm(), cm()]]
+        elif x < 0.76:
             prog = ['pat', t0, g.mono(defs)]
         else:
             prog = ['pat', t0, g.pat(defs)]
@@ -1037,6 +1085,11 @@ class Check(common.Check):
                 lines.append(f'restart {p[1]} {p[3]} {p[4]} {sx_pat(p[2])}')
             elif p[0] == 'replay':
                 lines.append(f'replay {p[1]} {sx_ev(p[2])} ({" ".join(d for d, _ in p[3])})')
+            elif p[0] == 'redef':
+                d = p[4]
+                lines.append(f'event {p[1]} {sx_ev(p[2])}')
+                lines.append(f'redef (desc {d["name"]} {int(bool(d.get("keep_gate")))} ({" ".join(d["controls"])}))')
+                lines.append(f'event {F(p[1]) + F(p[3])} {sx_ev(p[2])}')
             else:
                 lines.append(f'pat {p[1]} {sx_pat(p[2])}')
         out, err = common.run_driver('Sc3Verif/C14/Driver.lean', lines)
@@ -1054,7 +1107,15 @@ class Check(common.Check):
                 final.append({'msgs': None, 'raw': r})
                 continue
             end = r[-1].split()
-            final.append({'msgs': [parse_model_line(x) for x in r[1:-1]], 'died': end[2] == '1',
+            body, died = [], False
+            for x in r[1:-1]:
+                if x.startswith('END '):          # several plays in one case (redef): a raising play ends the routine
+                    if x.split()[2] == '1':
+                        died, end = True, x.split()
+                        break
+                elif x != 'ok':
+                    body.append(x)
+            final.append({'msgs': [parse_model_line(x) for x in body], 'died': died or end[2] == '1',
                           'end': float(F(end[1]))})
         return final
 
@@ -1069,6 +1130,8 @@ class Check(common.Check):
         return msgs
 
     def compare(self, case, impl_out, model_out):
+        if case['prog'][0] == 'pat' and chain_over_mono(case['prog'][2]):
+            return None                   # oracle-only rule (see oracle)
         if model_out['msgs'] is None:
             return {'model': model_out}
         a = canon_msgs(self.impl_msgs(impl_out))
@@ -1101,6 +1164,25 @@ class Check(common.Check):
             if out.get('end') is not None and not close(float(out['end']), float(end)):
                 return {'what': f'the pattern ends at {out["end"]}, its timeline ends at {float(end)}',
                         'signature': 'end-time:mono'}
+            return None
+        if case['prog'][0] == 'pat' and chain_over_mono(case['prog'][2]):
+            # Pchain(Pbind, Pmono): the chained keys do not change what a Pmono is: ONE synth, then /n_set
+            try:
+                rows = [o_events_bind(m[2], ({}, set())) for m in monos_of(case['prog'][2])]
+            except Raise:
+                return None
+            if out['errors'] != 0 or out['build_error'] or any(rs for evs in rows for _, rs in evs):
+                return None
+            raw = self.impl_msgs(out)
+            n_new = sum(1 for m in raw if m[1] == '/s_new')
+            want = sum(1 for evs in rows if evs)
+            if n_new != want:
+                return {'what': f'{n_new} synths were created for {want} Pmono under Pchain',
+                        'signature': 'mono-under-chain-synths'}
+            for h in histories(raw):
+                if h[0][1] != '/s_new':
+                    return {'what': f'commands {h[:2]} address a node that was never created',
+                            'signature': 'mono-under-chain-history'}
             return None
         if case['prog'][0] == 'pat' and has_mono(case['prog'][2]):
             try:
@@ -1180,13 +1262,18 @@ class Check(common.Check):
     @staticmethod
     def top(case):
         p = case['prog']
-        return p[0] if p[0] in ('event', 'replay', 'restart') else p[2][0]
+        return p[0] if p[0] in ('event', 'replay', 'restart', 'redef') else p[2][0]
 
     def shrink(self, case, fails):
         def cands(prog):
             if prog[0] == 'event':
                 for i in range(len(prog[2])):
                     yield ['event', prog[1], prog[2][:i] + prog[2][i + 1:]]
+                return
+            if prog[0] == 'redef':
+                for i in range(len(prog[2])):
+                    if prog[2][i][0] != 'instrument':
+                        yield prog[:2] + [prog[2][:i] + prog[2][i + 1:]] + prog[3:]
                 return
             if prog[0] == 'replay':
                 for i in range(len(prog[3])):
@@ -1284,6 +1371,8 @@ class Check(common.Check):
                 walk(p[2])
             elif p[0] == 'replay':
                 h['replay'] = h.get('replay', 0) + 1
+            elif p[0] == 'redef':
+                h['redef'] = h.get('redef', 0) + 1
             elif p[0] == 'event':
                 h['event'] += 1
                 for k, _ in p[2]:
